@@ -407,6 +407,11 @@ func RunCheck(e Engine, a CheckArgs) CheckOutcome {
 		fmt.Printf("check %s tier=%s seed=%d: %d runs, %d distinct non-trivial, %d states, %.1fs, violations=%d\n",
 			a.Property, a.Tier, a.VerifSeed, out.Evaluations, len(nontriv), len(total.States), wall, len(out.Violations))
 	}
+	if blind := total.Counters["blind_runs"]; blind*2 > int64(out.Evaluations) && len(out.Violations) == 0 {
+		// a clean result from runs that could not look at the system under test is no result
+		fmt.Fprintf(os.Stderr, "HARNESS: %d of %d runs of check %s could not observe the application's state (exit 2, not a violation)\n", blind, out.Evaluations, a.Property)
+		harness = true
+	}
 	switch {
 	case len(out.Violations) > 0:
 		out.Exit = 1
